@@ -20,7 +20,7 @@ WD_RUN="$RUN/repo"
 RES=""
 for P in ${SEED_PROPS:-$ID}; do
   for S in ${SEED_SEEDS:-1}; do
-    o=$(VERIF_SEED=$S VERIF_REPO="$WD_RUN" VERIF_EVIDENCE_DIR=/tmp/vp-seed-ev ./check $P --tier quick 2>&1); e=$?
+    o=$(VERIF_NO_SHRINK=${VERIF_NO_SHRINK:-1} VERIF_SEED=$S VERIF_REPO="$WD_RUN" VERIF_EVIDENCE_DIR=/tmp/vp-seed-ev ./check $P --tier quick 2>&1); e=$?
     k=$(echo "$o" | grep -v "WARNING\|KNOWN-FINDING" | grep "^  " | head -1 | cut -c1-160)
     echo "check $P seed=$S exit=$e $k"
     RES="$RES $P:seed$S:exit$e"
